@@ -1,15 +1,20 @@
 ------------------------------ MODULE MC_Files ------------------------------
 EXTENDS Files, Json
-CONSTANT EmitBehaviours
+CONSTANTS EmitBehaviours,
+          Focus   \* TRUE: only behaviours ServerDown, MaxOps-2 edits, ServerUp (every offline window of that length)
 VARIABLE hist
 mcvars == <<vars, hist>>
 MCInit == Init /\ hist = <<>>
 (* user-level steps are recorded with the settled state they must lead to *)
+FocusOK == /\ (nops = 0 /\ nops' = 1) => last' = <<"ServerDown">>
+           /\ (nops > 0 /\ nops' # nops) => last'[1] \notin {"ServerDown", "SyncReader"}
+           /\ (online' /\ ~online) => nops = MaxOps - 1
 MCNext == /\ Next
+          /\ Focus => FocusOK
           /\ hist' = IF nops' # nops
-                     THEN Append(hist, [op |-> last', editor |-> Reduce(flog'[Editor])])
+                     THEN Append(hist, [op |-> last', editor |-> Reduce(flog'[Editor]), online |-> online'])
                      ELSE hist
 View == vars
-EmitInv == (EmitBehaviours /\ nops = MaxOps /\ up = <<>> /\ dl = {} /\ srvLog = flog[Editor]) =>
+EmitInv == (EmitBehaviours /\ nops = MaxOps /\ online /\ up = <<>> /\ dl = {} /\ srvLog = flog[Editor]) =>
               PrintT(<<"CASE", ToJson(hist)>>)
 =============================================================================
